@@ -10,7 +10,7 @@
 import json
 import re
 
-from ..query import deep_roots, TRANSPARENT, option_arms, bool_arms, field_path, effective_arms
+from ..query import deep_roots, TRANSPARENT, option_arms, bool_arms, field_path, effective_arms, iter_chain, closure_consumer, bool_returns_from
 
 RC = r"^ast_grep_config::rule_collection::RuleCollection::<L>::"
 SEARCHES = {"next", "find", "find_map", "position", "any", "rposition"}
@@ -50,8 +50,26 @@ def rc1(ctx, rid):
         if si and si.get("enum") and si["enum"].endswith("rule_config::Severity") and "Off" in si["arms"]:
             sws.append((bi, si))
     heads = [c.bb for c in tn.calls if c.name == "next" and tn.in_loop(c.bb)]
+    # alternative: the rules come out of an iterator pipeline with a `filter` whose predicate is false for Severity::Off
+    filtered_loops = []
+    for c in tn.calls:
+        if c.name != "next" or not tn.in_loop(c.bb) or not c.args:
+            continue
+        ad, _ = iter_chain(prog, tn, c.args[0])
+        for ff, a in ad:
+            if a.name != "filter":
+                continue
+            for g in prog.closures_of(ff):
+                cons = closure_consumer(prog, g)
+                if not cons or not (cons[1] is a or (cons[1].name == a.name and cons[1].line == a.line and cons[0].id == ff.id)):
+                    continue
+                for bi in sorted(g.live_blocks):
+                    si = g.switch_info(bi)
+                    if si and si.get("enum") and si["enum"].endswith("rule_config::Severity") and "Off" in si["arms"]:
+                        if bool_returns_from(g, si["arms"]["Off"]) == {"false"}:
+                            filtered_loops.append(c)
     for n, s in enumerate(stores):
-        ok = False
+        ok = any(tn.dominates(sb, s.bb) for c in filtered_loops for sb in option_arms(tn, c)["some"])
         for bi, si in sws:
             ea = effective_arms(tn, si)
             off = ea["Off"]
